@@ -1,11 +1,17 @@
 use crate::intermediate::{
-    ASN1Type, ToplevelDefinition, ToplevelTypeDefinition, ToplevelValueDefinition,
+    ASN1Type, ExtensibilityEnvironment, ToplevelDefinition, ToplevelTypeDefinition,
+    ToplevelValueDefinition,
 };
 
 use super::{template::*, utils::*, Typescript};
 use crate::generator::error::{GeneratorError, GeneratorErrorType};
 
 impl Typescript {
+    /// Whether the module being generated carries the `EXTENSIBILITY IMPLIED` default
+    fn extensibility_implied(&self) -> bool {
+        self.extensibility_environment == ExtensibilityEnvironment::Implied
+    }
+
     pub(crate) fn generate_typealias(
         &self,
         tld: ToplevelTypeDefinition,
@@ -193,7 +199,7 @@ impl Typescript {
             Ok(choice_template(
                 &format_comments(&tld.comments),
                 &to_jer_identifier(&tld.name),
-                &format_choice_options(&choice),
+                &format_choice_options(&choice, self.extensibility_implied()),
             ))
         } else {
             Err(GeneratorError::new(
@@ -212,7 +218,7 @@ impl Typescript {
             ASN1Type::Sequence(ref seq) | ASN1Type::Set(ref seq) => Ok(sequence_or_set_template(
                 &format_comments(&tld.comments),
                 &to_jer_identifier(&tld.name),
-                &format_sequence_or_set_members(seq),
+                &format_sequence_or_set_members(seq, self.extensibility_implied()),
             )),
             _ => Err(GeneratorError::new(
                 Some(ToplevelDefinition::Type(tld)),
@@ -231,7 +237,10 @@ impl Typescript {
                 Ok(sequence_or_set_of_template(
                     &format_comments(&tld.comments),
                     &to_jer_identifier(&tld.name),
-                    &array_of(&type_to_tokens(&se_of.element_type)),
+                    &array_of(&type_to_tokens(
+                        &se_of.element_type,
+                        self.extensibility_implied(),
+                    )),
                 ))
             }
             _ => Err(GeneratorError::new(
